@@ -72,6 +72,7 @@ def execute_step(step: Dict[str, Any], base: Path, idx: int, mkdtemps: List[str]
     pow_.CALLS.clear()
     pow_.CONTAINERS_STARTED[0] = 0
     pow_.SCRIPT.clear()
+    pow_.SCRIPT.clear()
     pow_.SCRIPT.update({"outcome": "ok", "k": 0, "nchunks": 3, "result_name": "ANALYSIS.root"})
     pow_.SCRIPT.update(step["outcome"])
     n_before = len(mkdtemps)
@@ -156,6 +157,9 @@ def make_cases(ctx: Ctx) -> List[Dict[str, Any]]:
     # chatty containers: the failure (or the result) comes after many thousands of output chunks
     # the job wrote (part of) its result before the container failed: still a failure, nothing is returned
     outcomes += [{"outcome": "fail_after", "k": 2, "nchunks": 3, "write_at": 0}, {"outcome": "fail_after", "k": 3, "nchunks": 3, "write_at": 1}, {"outcome": "fail_after", "k": 5, "nchunks": 6, "write_at": 4}]
+    # job output that is not (chunk-wise) valid UTF-8: it is log text, the run itself succeeded / failed as the container says
+    outcomes += [{"outcome": "ok", "nchunks": 4, "chunk_bytes": "split_utf8"}, {"outcome": "ok", "nchunks": 3, "chunk_bytes": "latin1"},
+                 {"outcome": "fail_after", "k": 3, "nchunks": 4, "chunk_bytes": "latin1"}]
     outcomes += [{"outcome": "ok", "nchunks": 20000}, {"outcome": "fail_after", "k": 19999, "nchunks": 20000}, {"outcome": "fail_after", "k": 20000, "nchunks": 20000}]
     i = 0
     for cls in ("atlas", "cms_aod", "cms_miniaod"):
